@@ -46,7 +46,7 @@ CLAIMED = {
             'Same machinery over error families: a value-dependent raising ("poison") expression placed in every clause (SELECT item, WHERE, ORDER BY key, GROUP BY key, aggregate argument, UPDATE rhs, UNNEST list), UPDATE target / JOIN key beyond NF, strict-join and multi-match UPDATE errors, over tables holding the poison at every position; mistakes in the query text (= in WHERE, two SELECTs, bad LIMIT, unknown EXCEPT / UPDATE field, ORDER BY in UPDATE, two UNNESTs, aggregates under ORDER BY / DISTINCT, star + alias without header, EXCEPT + JOIN) and inconsistent input (column-name list length, join header mismatch). Ref gives class, first offending record in processing order and field; replay compares class (exception_to_error_info), record number and field parsed from the message; a TLC monitor checks that parsing errors precede any write; field-count warning numbers compared for header-less full scans of A and B.',
             ENG_NOTE + ' Warning kinds None-in-output / delimiter-in-simple-output / BOM / malformed quoting are decided with the CSV specifications (C10, C12 evidence), not here.', ENG_TECH),
     'C15': ('5 C15, 3.2, 3.8, 3.11',
-            '(a) RbqlEngine with a fault plan (the leaf writer refuses from call k, k = every index) over 9 query shapes: TLC proves prefix output, the writer-protocol monitor (set_header once and first, no write after FALSE, finish exactly once iff success) and promptness (no pull after a refusal); replayed with a user writer returning False at k; (b) the real CSVWriter over a stream raising BrokenPipeError at every stream.write index: no exception, emitted text = prefix of the fault-free text, monitors judged by TLC; (c) Utf8.tla (incremental decoder = declarative decoder under every partition) model-checked, every byte string within the bound delivered to the real reader under every partition x chunk sizes, verdict by TLC (BadByteTrace: invalid => IO-handling error, valid => RefRead of the decoded text); (d) Frontends.tla (query_csv life-cycle, every raising point) model-checked for "terminated => no open handle", 26 query_csv scenarios recorded through a replaced rbql_csv.open and judged by TLC (FrontendTrace), /proc/self/fd as second witness; (e) unbounded argument for the writer protocol: RbqlEngine refines the abstraction WriterChain (TLC action property ChainRefinement in every engine run) and WriterChain's inductive invariant (=> ~bad, m.writes an unbounded integer) is checked by Apalache (initiation, consecution, mutant rejected).',
+            '(a) RbqlEngine with a fault plan (the leaf writer refuses from call k, k = every index) over 9 query shapes: TLC proves prefix output, the writer-protocol monitor (set_header once and first, no write after FALSE, finish exactly once iff success) and promptness (no pull after a refusal); replayed with a user writer returning False at k; (b) the real CSVWriter over a stream raising BrokenPipeError at every stream.write index: no exception, emitted text = prefix of the fault-free text, monitors judged by TLC; (c) Utf8.tla (incremental decoder = declarative decoder under every partition) model-checked, every byte string within the bound delivered to the real reader under every partition x chunk sizes, verdict by TLC (BadByteTrace: invalid => IO-handling error, valid => RefRead of the decoded text); (d) Frontends.tla (query_csv life-cycle, every raising point) model-checked for "terminated => no open handle", 26 query_csv scenarios recorded through a replaced rbql_csv.open and judged by TLC (FrontendTrace), /proc/self/fd as second witness; (e) unbounded argument for the writer protocol: RbqlEngine refines the abstraction WriterChain (TLC action property ChainRefinement in every engine run) and the inductive invariant of WriterChain (=> ~bad, m.writes an unbounded integer) is checked by Apalache (initiation, consecution, mutant rejected).',
             'Bounds: tables <= 2-3 records, byte strings <= 3-4 bytes over 15 byte values; a broken pipe is an exception-raising stream, not an OS pipe.', 'TLA+ engine spec with fault plan + UTF-8 decoder machine + front-end life-cycle machine model-checked by TLC; fault-point enumeration replayed into the code; TLC trace validation; refinement to an abstraction whose inductive invariant Apalache checks'),
 
     'C03': ('5 C03, 3.2',
